@@ -13,15 +13,29 @@
     class, rule-less classes shared by several chains, chains that stop at a class whose base another rule declares,
     two rules building one class, shuffled rule order): the classes of the generated model module have exactly the
     declared ancestors (static, no parse), and the O1 / N2 / B1 / W1 / D1 checks run on these grammars too.
+    C1 concurrent first use: threads (own parsers / one parser, own or shared semantics objects, direct builder calls)
+    meet never-synthesized type names at the same moment, the interleaving driven through an __init_subclass__ hook of
+    the node base type: one class per name, the registered one, in every thread's tree.
+    K1 type containers: histories of compile() / parse() calls over generations of the generated model module (new
+    module object under the same name, reloaded file; typedefs, mapping, constructors, builderconfig, semantics): the
+    nodes of every call are instances of the classes given to THAT call.
 """
 from __future__ import annotations
 
+import atexit
 import builtins
+import copy
 import dataclasses
+import importlib
 import itertools
 import json
+import os
+import random
 import re
+import shutil
 import sys
+import threading
+import time
 import types
 import weakref
 from collections.abc import Iterable, Mapping
@@ -640,10 +654,13 @@ def canon_model(v):
     return ['?', type(v).__name__]
 
 
-def expect_from_marks(v, ancestors=None):
+def expect_from_marks(v, ancestors=None, base_mro=None):
     """the canonical model tree that the property prescribes for a traced derivation; `ancestors`: class name -> the
     base classes declared for it by the grammar as a whole (a chain may stop at a class whose own bases are declared by
-    another rule); without it the rule's own chain"""
+    another rule); without it the rule's own chain; `base_mro`: class names above the declared ones (default: those
+    of a synthesized class below Node)"""
+    base_mro = BASE_MRO if base_mro is None else base_mro
+
     def go(v):
         if isinstance(v, Mark):
             names_ = [mangle(s) for s in v.spec.split('::')]
@@ -658,8 +675,8 @@ def expect_from_marks(v, ancestors=None):
             if ancestors is not None:
                 names_ = [head] + ancestors(head)
             if isinstance(inner, dict):
-                return ['node', head, names_ + BASE_MRO, {k: go(x) for k, x in inner.items()}, ['NoneType', None]]
-            return ['node', head, names_ + BASE_MRO, {}, go(inner)]
+                return ['node', head, names_ + base_mro, {k: go(x) for k, x in inner.items()}, ['NoneType', None]]
+            return ['node', head, names_ + base_mro, {}, go(inner)]
         if isinstance(v, Mapping):
             return {k: go(x) for k, x in v.items()}
         if isinstance(v, tuple):
@@ -962,6 +979,9 @@ def run_grammars(chk: Check, mr: ModelRun):
     ncases = 0
     wbad = 0
     d1_batch: list = []
+    kbad = 0
+    k1_every = 15 if chk.quick else 8
+    krng = random.Random(f'C07-K1-{chk.seed}')      # own stream: the grammars of a seed stay what they were
     risky_plan = []
     for cls, pool in RISKY_ATTRS.items():
         for nm in pool:
@@ -1130,6 +1150,8 @@ def run_grammars(chk: Check, mr: ModelRun):
             # the largest trees of both class families
             wpool.sort(key=lambda p: -len(node_orders(p[1])['dfs']))
             wbad += run_dispatch(chk, gc, wpool[:5], 3 if chk.quick else 8, d1_batch)
+        if not risky and genmod is not None and texts and gi % k1_every == 1:
+            kbad += run_containers(chk, krng, gc, src, texts, gp, gensem_cls)
         if gi == 0:
             chk.sample({'grammar': gc.text, 'input': texts[-1] if texts else ''})
         if risky and groups:
@@ -1138,13 +1160,18 @@ def run_grammars(chk: Check, mr: ModelRun):
             chk.violation(sig, f'{risky[0]} named {risky[2]!r} ({risky[1]}): ' + '; '.join(groups[g][0] for g in sorted(groups)),
                           dict(first[1], failing_checks=sorted(groups)))
     chk.obligation('O1: model parse vs plain parse on generated annotated grammars', 'oracle',
-                   not any(not v['signature'].startswith(('corr:', 'walk-dispatch:', 'genmodel-bases:')) for v in chk.violations))
+                   not any(not v['signature'].startswith(('corr:', 'walk-dispatch:', 'genmodel-bases:', 'containers:',
+                                                          'concurrent-first-use:')) for v in chk.violations))
     chk.obligation('H1: classes of the generated model module have the base classes the grammar declares (chains of '
                    'all rules together: rule classes as bases, shared rule-less classes, chains that stop at a class '
                    'declared elsewhere, any rule order)', 'oracle',
                    not any(v['signature'].startswith('genmodel-bases:') for v in chk.violations))
     chk.obligation('W1: walker class / use histories: handler of every node and traversal vs the dispatch oracle',
                    'oracle', wbad == 0)
+    kbad += run_containers_small(chk)
+    chk.obligation('K1: compile-call histories over generations of the model module (typedefs / mapping / constructors / '
+                   'builderconfig / semantics, compile time and parse time, new module objects and reloaded files): nodes '
+                   'are instances of the classes given to the call', 'oracle', kbad == 0)
     flush_ties(chk, mr, tie_batch, 'N2')
     flush_build(chk, mr, build_reqs)
     flush_dispatch(chk, mr, d1_batch)
@@ -1847,6 +1874,629 @@ def run_dispatch(chk: Check, gc, wpool, nhist, d1_batch):
     return bad
 
 
+def small_model_grammar(rng, tag):
+    """a few typed rules (single names and chains `T`, `T::U0`, `T::U1::U0`) whose nodes nest through an optional and
+    sit in the list of a typed start rule; -> (grammar text, sentences)"""
+    n = rng.randint(2, 4)
+    lines = [f'@@grammar :: {tag}', f'start::{tag}Doc = items:{{ item }}* $ ;',
+             'item = ' + ' | '.join(f'r{i}' for i in range(n)) + ' ;']
+    for i in range(n):
+        chain = [f'{tag}T{i}'] + rng.choice([[], [], [f'{tag}U0'], [f'{tag}U1', f'{tag}U0']])
+        lines.append(f"r{i}::{'::'.join(chain)} = '{i}' x:/[a-z]+/ [ '(' y:item ')' ] ;")
+
+    def item(d):
+        s = f'{rng.randrange(n)}{rng.choice(["a", "bc", "foo"])}'
+        return s + (f'({item(d - 1)})' if d > 0 and rng.random() < 0.5 else '')
+    texts = sorted({' '.join(item(2) for _ in range(rng.randint(1, 3))) for _ in range(3)}, key=len)
+    return '\n'.join(lines) + '\n', texts
+
+
+# ------------------------------------------------------------------ C1: concurrent first use of type names
+# The property speaks of THE class of a name: class synthesis is keyed by name in a process-wide registry, and parsers
+# run in threads (one compiled parser shared by the workers of a server, or one parser per worker).  Family: several
+# threads meet type names that have never been synthesized at the same moment - own parsers, one parser with one
+# semantics object per thread, one model-building parser for all; same or rotated input order; some classes (bases or
+# leaves) already known; and the builder API called directly.  The interleaving is driven, not hoped for: the node
+# base type given to the builders has an __init_subclass__ hook (a project base class that keeps track of its
+# subclasses), and while a race is on the hook keeps the creating thread inside class creation until every other
+# working thread has either finished or come to rest inside synthesize() - i.e. the second thread always arrives while
+# the first is still creating the class.
+# Oracle (no knowledge of how synthesize() synchronizes): per type name exactly one class is created, however many
+# threads asked; every node of that name, in every thread's trees, is an instance of that one class, which is the class
+# the registry answers with afterwards; nobody raises; each tree is what the property prescribes for the traced
+# derivation (class names, declared MRO, attributes) and erases to the plain AST.
+_GATE: list = [None]
+
+
+class Gate:
+    def __init__(self):
+        self.created: list = []       # (class name, class) in creation order, all threads
+        self.live: dict = {}          # thread ident -> still working
+        self.longest_hold = 0.0
+
+    @staticmethod
+    def resting_place(tid):
+        """where a thread is inside synthesize() (frame, instruction) or None when it is somewhere else"""
+        f = sys._current_frames().get(tid)
+        while f is not None:
+            if f.f_code.co_name == 'synthesize':
+                return (id(f), f.f_lasti)
+            f = f.f_back
+        return None
+
+    def on_class(self, cls):
+        me = threading.get_ident()
+        self.created.append((cls.__name__, cls))
+        t0 = time.perf_counter()
+        last: dict = {}
+        while time.perf_counter() - t0 < 1.0:
+            settled = True
+            for tid, alive in list(self.live.items()):
+                if tid == me or not alive:
+                    continue
+                pos = self.resting_place(tid)
+                if pos is None or last.get(tid) != pos:
+                    settled = False
+                last[tid] = pos
+            if settled:
+                break
+            time.sleep(0.001)
+        self.longest_hold = max(self.longest_hold, time.perf_counter() - t0)
+
+
+class V7Hooked(Node):
+    """a project's base node class that is told about every subclass"""
+
+    def __init_subclass__(cls, **kwargs):
+        super().__init_subclass__(**kwargs)
+        gate = _GATE[0]
+        if gate is not None:
+            gate.on_class(cls)
+
+
+HOOKED_MRO = ['V7Hooked'] + BASE_MRO
+
+
+def race(jobs):
+    """runs the callables, one thread each, released together; -> ([('ok', value) | ('raises', exc) | ('hangs',)], gate)"""
+    gate = Gate()
+    start = threading.Barrier(len(jobs))
+    results: list = [('hangs',)] * len(jobs)
+
+    def work(j):
+        me = threading.get_ident()
+        gate.live[me] = True
+        try:
+            start.wait(timeout=20)
+            results[j] = ('ok', jobs[j]())
+        except Exception as e:                              # noqa: BLE001
+            results[j] = ('raises', e)
+        finally:
+            gate.live[me] = False
+    threads = [threading.Thread(target=work, args=(j,), daemon=True) for j in range(len(jobs))]
+    _GATE[0] = gate
+    try:
+        for t in threads:
+            t.start()
+        for t in threads:
+            t.join(timeout=30)
+    finally:
+        _GATE[0] = None
+    return results, gate
+
+
+def registered_class(name):
+    """the class the process-wide registry holds for a name that is known to exist (get-or-create gets)"""
+    return synthesize(name, ())
+
+
+def retag(gc):
+    """the same grammar under class names that this process has never seen"""
+    g2 = copy.copy(gc)
+    g2.tag = f'{RUN}C{next(_seq)}x'
+    g2.text = gc.text.replace(gc.tag, g2.tag)
+    g2.read_declarations()
+    return g2
+
+
+FAILURE_PRIORITY = ['hangs', 'raises', 'class-created-more-than-once', 'known-class-created-again', 'two-classes-of-one-name',
+                    'not-the-registered-class', 'not-below-the-registered-base', 'bases-differ-from-the-declared-chain',
+                    'tree-differs-from-the-derivation', 'mirror']
+
+
+def primary(fails):
+    """the failure that names the signature: the first of FAILURE_PRIORITY among the failure kinds of a race"""
+    return min(fails, key=lambda f: FAILURE_PRIORITY.index(f.split('-')[0] if f.startswith('raises') else f)) if fails else None
+
+
+PARSE_ARRANGEMENTS = ['own-parsers', 'one-parser-own-semantics', 'one-model-parser']
+
+
+def parse_race(gc0, texts, nthreads, arrangement, warm, rotate):
+    """one race over a freshly named copy of the grammar; -> (sorted failure kinds, detail, evidence counters)"""
+    gc = retag(gc0)
+    fails: set = set()
+    detail: dict = {'grammar': gc.text}
+    plain_p = tatsu.compile(gc.text, name=gc.tag + 'p')
+    if arrangement == 'own-parsers':
+        parsers = [plain_p] + [tatsu.compile(gc.text, name=gc.tag + f'p{j}') for j in range(1, nthreads)]
+    elif arrangement == 'one-parser-own-semantics':
+        parsers = [plain_p] * nthreads
+    else:
+        parsers = [tatsu.compile(gc.text, name=gc.tag + 'm', basetype=V7Hooked)] * nthreads
+    warm_names = [gc.tag + w for w in warm if gc.tag + w in gc.declared]
+    for n in sorted(warm_names, key=lambda n: len(gc.ancestors(n))):
+        ModelBuilderSemantics(basetype=V7Hooked)._default('x', '::'.join([n] + gc.ancestors(n)))
+    known_before = set()
+    for n in warm_names:
+        known_before |= {n, *gc.ancestors(n)}
+
+    def job(j):
+        k = j % len(texts) if rotate else 0
+        order = texts[k:] + texts[:k]
+        sem = None if arrangement == 'one-model-parser' else ModelBuilderSemantics(basetype=V7Hooked)
+
+        def run():
+            return {t: (parsers[j].parse(t) if sem is None else parsers[j].parse(t, semantics=sem)) for t in order}
+        return run
+    results, gate = race([job(j) for j in range(nthreads)])
+    created: dict = {}
+    for n, c in gate.created:
+        created.setdefault(n, []).append(c)
+    for n, cs in created.items():
+        if len(cs) > 1:
+            fails.add('class-created-more-than-once')
+            detail.setdefault('created', {})[n] = len(cs)
+        if n in known_before:
+            fails.add('known-class-created-again')
+    seen: dict = {}                     # class name -> class objects met in the trees
+    wants: dict = {}
+    plains: dict = {}
+    for t in texts:
+        plains[t] = plain_p.parse(t)
+        wants[t] = expect_from_marks(plain_p.parse(t, semantics=TraceSemantics()), gc.ancestors, base_mro=HOOKED_MRO)
+    for j, r in enumerate(results):
+        if r[0] == 'hangs':
+            fails.add('hangs')
+            continue
+        if r[0] == 'raises':
+            fails.add(f'raises-{type(r[1]).__name__}')
+            detail.setdefault('errors', []).append(f'thread {j}: {r[1]!r}'[:300])
+            continue
+        for t, tree in r[1].items():
+            nodes: list = []
+            brute_nodes(tree, nodes, cross=True)
+            for n in uniq(nodes):
+                seen.setdefault(type(n).__name__, [])
+                if not any(type(n) is c for c in seen[type(n).__name__]):
+                    seen[type(n).__name__].append(type(n))
+            if canon_model(tree) != wants[t]:
+                fails.add('tree-differs-from-the-derivation')
+                detail.setdefault('tree', {'thread': j, 'input': t, 'got': json.dumps(canon_model(tree), default=str)[:1200],
+                                           'want': json.dumps(wants[t], default=str)[:1200]})
+            if not conv_equal(erase_model(tree), plain_json(plains[t]), gc.builtin):
+                fails.add('mirror')
+    for name, classes in seen.items():
+        if len(classes) > 1:
+            fails.add('two-classes-of-one-name')
+            detail.setdefault('classes_per_name', {})[name] = len(classes)
+        reg = registered_class(name)
+        if any(c is not reg for c in classes):
+            fails.add('not-the-registered-class')
+        for c in classes:
+            for a in gc.ancestors(name):
+                if not issubclass(c, registered_class(a)):
+                    fails.add('not-below-the-registered-base')
+    stats = {'classes': len(created), 'names-in-trees': len(seen), 'hold': gate.longest_hold}
+    return sorted(fails), detail, stats
+
+
+def gen_direct_race(rng):
+    """a declared forest over six names and per thread a sequence of names to ask for (always with the whole chain)"""
+    n = 6
+    parent: list = []
+    for i in range(n):
+        parent.append(rng.randrange(i) if i and rng.random() < 0.7 else None)
+    nthreads = rng.choice([2, 2, 3])
+    asks = [[rng.randrange(n) for _ in range(rng.randint(1, 4))] for _ in range(nthreads)]
+    if rng.random() < 0.6:              # everybody starts with the same name
+        for a in asks:
+            a[0] = asks[0][0]
+    warm = [i for i in range(n) if rng.random() < 0.2]
+    return {'parent': parent, 'asks': asks, 'warm': warm, 'shared_semantics': rng.random() < 0.3}
+
+
+def direct_race(spec):
+    tag = f'{RUN}Q{next(_seq)}x'
+    parent = spec['parent']
+
+    def chain(i):
+        out = [i]
+        while parent[out[-1]] is not None:
+            out.append(parent[out[-1]])
+        return [f'{tag}N{k}' for k in out]
+    fails: set = set()
+    detail: dict = {}
+    known_before: set = set()
+    for i in spec['warm']:
+        ModelBuilderSemantics(basetype=V7Hooked)._default('x', '::'.join(chain(i)))
+        known_before |= set(chain(i))
+    shared = ModelBuilderSemantics(basetype=V7Hooked) if spec['shared_semantics'] else None
+
+    def job(seq):
+        sem = shared or ModelBuilderSemantics(basetype=V7Hooked)
+
+        def run():
+            out = []
+            for i in seq:
+                c = chain(i)
+                if len(c) == 1 and i % 2:
+                    out.append((i, synthesize(c[0], (V7Hooked,))))
+                else:
+                    out.append((i, type(sem._default('x', '::'.join(c)))))
+            return out
+        return run
+    results, gate = race([job(seq) for seq in spec['asks']])
+    created: dict = {}
+    for n, c in gate.created:
+        created.setdefault(n, []).append(c)
+    for n, cs in created.items():
+        if len(cs) > 1:
+            fails.add('class-created-more-than-once')
+            detail.setdefault('created', {})[n] = len(cs)
+        if n in known_before:
+            fails.add('known-class-created-again')
+    seen: dict = {}
+    for j, r in enumerate(results):
+        if r[0] == 'hangs':
+            fails.add('hangs')
+        elif r[0] == 'raises':
+            fails.add(f'raises-{type(r[1]).__name__}')
+            detail.setdefault('errors', []).append(f'thread {j}: {r[1]!r}'[:300])
+        else:
+            for i, cls in r[1]:
+                name = chain(i)[0]
+                if not any(cls is c for c in seen.setdefault(name, [])):
+                    seen[name].append(cls)
+                if mro_names(cls) != chain(i) + ['V7Hooked']:
+                    fails.add('bases-differ-from-the-declared-chain')
+                    detail['chain'] = {'declared': chain(i), 'got': mro_names(cls)}
+    for name, classes in seen.items():
+        if len(classes) > 1:
+            fails.add('two-classes-of-one-name')
+        reg = registered_class(name)
+        if any(c is not reg for c in classes):
+            fails.add('not-the-registered-class')
+        for c in classes:
+            for a in c.__mro__[1:]:
+                if a.__name__.startswith(tag) and a is not registered_class(a.__name__):
+                    fails.add('not-below-the-registered-base')
+    return sorted(fails), detail, {'classes': len(created), 'hold': gate.longest_hold}
+
+
+def run_concurrent(chk: Check):
+    rng = random.Random(f'C07-C1-{chk.seed}')       # own stream: the grammars of a seed stay what they were
+    bad = 0
+    nbig, nparse = (3, 9) if chk.quick else (12, 60)
+    ndirect = 24 if chk.quick else 300
+    longest = 0.0
+    for i in range(nparse):
+        arrangement = PARSE_ARRANGEMENTS[i % len(PARSE_ARRANGEMENTS)]
+        if i < nbig:
+            gc = GrammarCase(rng, next(_seq), None, forest=False)
+            texts = sorted({gc.sentence(rng, rng.randint(1, 3)) for _ in range(3)}, key=len)
+        else:
+            # (an uncached compile of a ten-rule grammar costs 0.2 s: most races run on small grammars)
+            gc = GrammarCase.__new__(GrammarCase)
+            gc.tag, gc.builtin = f'{RUN}G{next(_seq)}x', 'str'
+            gc.text, texts = small_model_grammar(rng, gc.tag)
+            gc.read_declarations()
+        nthreads = rng.choice([2, 2, 3])
+        rotate = rng.random() < 0.4
+        bases = sorted({n[len(gc.tag):] for n in gc.declared})
+        warm = [b for b in bases if rng.random() < 0.25] if rng.random() < 0.5 else []
+        fails, detail, stats = parse_race(gc, texts, nthreads, arrangement, warm, rotate)
+        longest = max(longest, stats['hold'])
+        chk.case(f'race:{gc.text}|{texts}|{nthreads}|{arrangement}|{warm}|{rotate}', nontrivial=stats['classes'] > 0)
+        chk.count('C1.parse-races')
+        chk.count('C1.parse-races.' + arrangement)
+        chk.count('C1.classes-created-during-races', stats['classes'])
+        if fails:
+            bad += 1
+            # shrink: two threads, one input, nothing known before, same order - while the same failures remain
+            best = (texts, nthreads, warm, rotate, detail)
+            for cand in [(texts, 2, warm, rotate), (texts, 2, [], False)] + [([t], 2, [], False) for t in texts]:
+                f2, d2, _ = parse_race(gc, *cand[:2], arrangement, *cand[2:])
+                if primary(f2) == primary(fails):
+                    best, fails = (*cand, d2), f2
+            texts, nthreads, warm, rotate, detail = best
+            chk.violation(f'concurrent-first-use:{arrangement}:{primary(fails)}',
+                          f'{nthreads} threads building models of the same grammar at the same time ({arrangement}): '
+                          + ', '.join(fails),
+                          dict(detail, oracle='C1 one class per type name under concurrent first use', inputs=texts,
+                               failures=fails,
+                               threads=nthreads, arrangement=arrangement, classes_known_before=warm,
+                               rotated_input_order=rotate, basetype='a Node subclass with an __init_subclass__ hook that '
+                               'keeps the creating thread inside class creation until the other threads rest in synthesize()'))
+    for _ in range(ndirect):
+        spec = gen_direct_race(rng)
+        fails, detail, stats = direct_race(spec)
+        longest = max(longest, stats['hold'])
+        chk.case('race-direct:' + json.dumps(spec), nontrivial=stats['classes'] > 0)
+        chk.count('C1.direct-races')
+        chk.count('C1.classes-created-during-races', stats['classes'])
+        if fails:
+            bad += 1
+            small = dict(spec)
+            for cand in [dict(spec, asks=[a[:1] for a in spec['asks'][:2]], warm=[]),
+                         dict(spec, asks=[a[:1] for a in spec['asks'][:2]]), dict(spec, asks=spec['asks'][:2])]:
+                f2, d2, _ = direct_race(cand)
+                if primary(f2) == primary(fails):
+                    small, detail, fails = cand, d2, f2
+                    break
+            kind = 'direct-shared-semantics' if small['shared_semantics'] else 'direct'
+            chk.violation(f'concurrent-first-use:{kind}:{primary(fails)}',
+                          f'{len(small["asks"])} threads asking the model builder for classes of the same names at the '
+                          f'same time: ' + ', '.join(fails),
+                          dict(detail, oracle='C1 one class per type name under concurrent first use', spec=small,
+                               failures=fails,
+                               unshrunk_spec=spec))
+    chk.obligation('C1: concurrent first use of type names (threads x parsers x semantics objects, driven interleaving): '
+                   'one class per name, the registered one, in every thread\'s tree; trees as prescribed', 'oracle', bad == 0)
+
+
+# ------------------------------------------------------------------ K1: type containers over compile-call histories
+# The classes of the generated model module reach the builder through a type container given to a call: typedefs=[module]
+# (or a mapping), constructors=[classes], builderconfig=BuilderConfig(typedefs=..), semantics=ModelBuilderSemantics(
+# typedefs=..) or the module's own <Name>ModelBuilderSemantics - at compile time or at parse time.  A project regenerates
+# its model module while it lives: a new module object under the same name, or importlib.reload() of the rewritten file.
+# Family: histories of such calls for ONE grammar text and parser name, over several generations of the module (same
+# qualified names, new class objects), going forth and (where the old module object still exists) back, with
+# asmodel=True and plain compiles in between.
+# Oracle: every node of a step's tree is an instance of the class of that name in the container GIVEN TO THAT STEP
+# (synthesized class for asmodel, no node at all for plain), and the tree equals the generated-class / synthesized /
+# plain reference of the input - whatever was compiled before.
+K1_COMPILE_HOWS = ['compile-typedefs', 'compile-typedefs-mapping', 'compile-constructors', 'compile-builderconfig',
+                   'compile-semantics']
+K1_PARSE_HOWS = ['parse-time-semantics', 'generated-semantics', 'api-parse-typedefs']
+K1_PLAIN_HOWS = ['plain', 'api-parse-plain', 'parse-time-none']                     # no container: generation 0
+K1_SYNTH_HOWS = ['asmodel', 'api-parse-asmodel']
+_SCRATCH: list = []
+_kcount = itertools.count()
+
+
+def scratch_dir():
+    if not _SCRATCH:
+        d = Path(f'/var/tmp/verif-c07-{os.getpid()}')
+        shutil.rmtree(d, ignore_errors=True)
+        d.mkdir(parents=True)
+        sys.path.insert(0, str(d))
+        _SCRATCH.append(d)
+        atexit.register(drop_scratch)
+    return _SCRATCH[0]
+
+
+def drop_scratch():
+    for d in _SCRATCH:
+        if str(d) in sys.path:
+            sys.path.remove(str(d))
+        shutil.rmtree(d, ignore_errors=True)
+    del _SCRATCH[:]
+    for name in [m for m in sys.modules if m.startswith(('verif_c07_model_', 'verif_c07_file_'))]:
+        del sys.modules[name]
+
+
+def gen_container_history(rng, flavour, primary_how):
+    """(every uncached compile costs 0.05 - 0.2 s: one compile-time way per history, sometimes two, given generation 1
+    and then generation 2; the parse-time ways and, after its first call, tatsu.parse() are cheap: every entry point
+    that is given generation 1 is later given generation 2 and asked for a parse without any container)"""
+    hows = [primary_how] + ([rng.choice(K1_COMPILE_HOWS)] if rng.random() < 0.4 else [])
+    hows = list(dict.fromkeys(hows))
+    api = rng.random() < 0.6
+
+    def block(k):
+        b = [('use', h, k) for h in hows] + [('use', rng.choice(['parse-time-semantics', 'generated-semantics']), k)]
+        if api:
+            b.append(('use', 'api-parse-typedefs', k))
+            if k == 2 or rng.random() < 0.5:
+                b.append(('use', rng.choice(['api-parse-plain', 'api-parse-asmodel']), 0))
+        if rng.random() < 0.3:
+            b.append(('use', rng.choice(['asmodel', 'plain']), 0))
+        if k == 2:
+            b.append(('use', 'parse-time-none', 0))
+        rng.shuffle(b)
+        return b
+    steps = [('gen', 1), *block(1), ('gen', 2), *block(2)]
+    if rng.random() < 0.5:
+        if flavour == 'module-objects':
+            steps.append(('use', primary_how, 1))               # the old module object is still there: back to it
+        else:
+            steps += [('gen', 3), ('use', primary_how, 3)]
+    return steps
+
+
+def run_container_history(gc, src, steps, flavour, texts, refs, gp):
+    """-> [(step index, how, failure kind, detail)]; fresh parser / module names per run (the compile cache is process-wide)"""
+    from tatsu.objectmodel.builder import BuilderConfig
+    uid = next(_seq)
+    pname = f'{gc.tag}k{uid}'
+    gtext = gc.text + f'# history {uid}\n'          # (a text the compile cache has never seen, whatever its key is)
+    semname = f'{gc.tag}pModelBuilderSemantics'
+    gens: dict = {}                     # generation -> (container module, {class name: class})
+    state: dict = {'mod': None}
+    keep: list = []
+    out: list = []
+
+    def make(k):
+        body = src + f'\nGENERATION = {k}\n'
+        if flavour == 'module-objects':
+            modname = f'verif_c07_model_{gc.tag}k{uid}'
+            mod = load_model_module(body, modname)
+        else:
+            modname = f'verif_c07_file_{gc.tag}k{uid}'
+            (scratch_dir() / f'{modname}.py').write_text(body)
+            if state['mod'] is None:
+                importlib.invalidate_caches()
+                mod = importlib.import_module(modname)
+            else:
+                mod = importlib.reload(state['mod'])
+        state['mod'] = mod
+        gens[k] = (mod, {n: c for n, c in vars(mod).items() if isinstance(c, type) and c.__module__ == modname})
+
+    def parser_of(how, k):
+        """the model-building parse of the step as a function of the input (compiled once per step)"""
+        mod, classes = gens.get(k, (None, None))
+        plain = gp                      # (compiled without builder options under another name)
+        if how == 'parse-time-none':
+            return plain.parse
+        if how == 'plain':
+            return tatsu.compile(gtext, name=pname).parse
+        if how == 'asmodel':
+            return tatsu.compile(gtext, name=pname, asmodel=True).parse
+        if how == 'api-parse-plain':
+            return lambda text: tatsu.parse(gtext, text, name=pname)
+        if how == 'api-parse-asmodel':
+            return lambda text: tatsu.parse(gtext, text, name=pname, asmodel=True)
+        if how == 'compile-typedefs':
+            return tatsu.compile(gtext, name=pname, typedefs=[mod]).parse
+        if how == 'compile-typedefs-mapping':
+            return tatsu.compile(gtext, name=pname, typedefs=[dict(classes)]).parse
+        if how == 'compile-constructors':
+            return tatsu.compile(gtext, name=pname, constructors=list(classes.values())).parse
+        if how == 'compile-builderconfig':
+            return tatsu.compile(gtext, name=pname, builderconfig=BuilderConfig(typedefs=[mod])).parse
+        if how == 'compile-semantics':
+            keep.append(ModelBuilderSemantics(typedefs=[mod]))
+            return tatsu.compile(gtext, name=pname, semantics=keep[-1]).parse
+        if how == 'parse-time-semantics':
+            return lambda text: plain.parse(text, semantics=ModelBuilderSemantics(typedefs=[mod]))
+        if how == 'generated-semantics':
+            return lambda text: plain.parse(text, semantics=classes[semname]())
+        if how == 'api-parse-typedefs':
+            return lambda text: tatsu.parse(gtext, text, name=pname, typedefs=[mod])
+        raise ValueError(how)
+
+    for si, step in enumerate(steps):
+        if step[0] == 'gen':
+            make(step[1])
+            continue
+        _, how, k = step
+        parse = None
+        for text in texts:
+            try:
+                parse = parse or parser_of(how, k)
+                tree = parse(text)
+            except Exception as e:                          # noqa: BLE001
+                out.append((si, how, f'raises-{type(e).__name__}', {'input': text, 'error': str(e)[:300]}))
+                break
+            nodes: list = []
+            brute_nodes(tree, nodes, cross=True)
+            nodes = uniq(nodes)
+            fail = None
+            if how in K1_PLAIN_HOWS:
+                if nodes or plain_json(tree) != refs['plain'][text]:
+                    fail = 'plain-parse-builds-nodes' if nodes else 'tree-differs'
+            elif how in K1_SYNTH_HOWS:
+                if any(type(n) is not registered_class(type(n).__name__) for n in nodes if isinstance(n, Node)):
+                    fail = 'nodes-not-of-the-synthesized-classes'
+                elif canon_model(tree) != refs['synth'][text]:
+                    fail = 'tree-differs'
+            else:
+                given = gens[k][1]
+                for n in nodes:
+                    cls = type(n)
+                    if given.get(cls.__name__) is cls:
+                        continue
+                    other = [kk for kk, (_, cs) in gens.items() if cs.get(cls.__name__) is cls]
+                    if other:
+                        fail = 'nodes-of-an-earlier-generation' if other[0] < k else 'nodes-of-a-later-generation'
+                    elif cls.__module__ == synthesize.__module__:
+                        fail = 'nodes-of-synthesized-classes'
+                    else:
+                        fail = 'nodes-of-unknown-classes'
+                    break
+                if fail is None and canon_model(tree) != refs['generated'][text]:
+                    fail = 'tree-differs'
+            if fail:
+                out.append((si, how, fail, {'input': text, 'generation_given': k}))
+                break
+    return out
+
+
+def run_containers(chk: Check, rng, gc, src, texts, gp, gensem_cls):
+    kn = next(_kcount)
+    flavour = ('module-objects', 'reloaded-file-module', 'module-objects')[kn % 3]
+    steps = gen_container_history(rng, flavour, K1_COMPILE_HOWS[kn % len(K1_COMPILE_HOWS)])
+    texts = [texts[0], texts[-1]] if len(texts) > 1 else list(texts)
+    refs: dict = {'plain': {}, 'synth': {}, 'generated': {}}
+    try:
+        for t in texts:
+            refs['plain'][t] = plain_json(gp.parse(t))
+            refs['synth'][t] = canon_model(gp.parse(t, semantics=ModelBuilderSemantics()))
+            refs['generated'][t] = canon_model(gp.parse(t, semantics=gensem_cls()))
+    except Exception:                                       # noqa: BLE001  (reported by O1)
+        chk.count('K1.skipped-no-reference')
+        return 0
+    chk.count('K1.histories')
+    chk.count('K1.histories.' + flavour)
+    chk.count('K1.steps', sum(1 for s in steps if s[0] == 'use'))
+    for s in steps:
+        if s[0] == 'use':
+            chk.count('K1.how.' + s[1])
+    chk.case('containers:' + gc.text + json.dumps(steps) + flavour, nontrivial=True)
+    failures = run_container_history(gc, src, steps, flavour, texts, refs, gp)
+    reported = set()
+    for si, how, fail, detail in failures:
+        sig = f'containers:{flavour}:{how}:{fail}'
+        if sig in reported:
+            continue
+        reported.add(sig)
+        # shrink: the failing step alone, else after one earlier step (generations made as needed)
+        def with_gens(use_steps):
+            need = max([s[2] for s in use_steps] + [1])
+            if flavour == 'module-objects':
+                return [('gen', k) for k in range(1, need + 1)] + use_steps
+            outs, cur = [], 0
+            for s in use_steps:
+                while cur < max(s[2], 1):
+                    cur += 1
+                    outs.append(('gen', cur))
+                outs.append(s)
+            return outs
+        small = None
+        before = [i for i in range(si) if steps[i][0] == 'use']
+        before.sort(key=lambda i: (steps[i][1] != how, steps[i][1].split('-')[0] != how.split('-')[0]))
+        cands = [[steps[si]]] + [[steps[i], steps[si]] for i in before]
+        for cand in cands[:8]:
+            cs = with_gens(cand)
+            if any((h, f) == (how, fail) for _, h, f, _ in run_container_history(gc, src, cs, flavour, texts, refs, gp)):
+                small = cs
+                break
+        chk.violation(sig, f'model classes given through a type container ({how}, {flavour}): {fail}',
+                      dict(detail, oracle='K1 nodes are instances of the classes given to the call', grammar=gc.text,
+                           history=[list(s) for s in steps], failing_step=si,
+                           minimal_history=[list(s) for s in small] if small else None,
+                           note='("gen", k): the model module is generated again (new class objects under the same '
+                                'qualified names); ("use", how, k): a model-building parse with generation k given'))
+    return len(reported)
+
+
+def run_containers_small(chk: Check):
+    """K1 on small grammars (an uncached compile of a ten-rule grammar costs 0.2 s, of these 0.05 s)"""
+    rng = random.Random(f'C07-K1s-{chk.seed}')
+    bad = 0
+    for _ in range(8 if chk.quick else 60):
+        tag = f'{RUN}K{next(_seq)}x'
+        text, texts = small_model_grammar(rng, tag)
+        gc = types.SimpleNamespace(text=text, tag=tag)
+        gp = tatsu.compile(text, name=tag + 'p')
+        src = tatsu.to_python_model(text, name=tag + 'p')
+        genmod = load_model_module(src, f'verif_c07_model_{tag}')
+        chk.count('K1.small-grammars')
+        bad += run_containers(chk, rng, gc, src, texts, gp, getattr(genmod, f'{tag}pModelBuilderSemantics'))
+    return bad
+
+
 # ------------------------------------------------------------------ T1 constants
 def constants(chk: Check, mr: ModelRun):
     model = sorted(names(mr.ask(['(basekeys)'])[0]))
@@ -1879,6 +2529,18 @@ def main():
                 'walk_<snake> for the grammar classes, their declared bases and Node, overrides, two spellings for one class, '
                 'the four default names) interleaved with walks over synthesized-class and generated-class trees of the '
                 'grammar (instances reused), plus D1-only histories with methods named after every class of the MRO. '
+                'C1: races of 2-3 threads over freshly named copies of generated grammars (ten-rule and small ones): each '
+                'thread its own parser, or one parser and a ModelBuilderSemantics per thread, or one model-building parser '
+                '(one semantics object) for all; same or rotated input order; a random subset of the classes known before; '
+                'and direct races on ModelBuilderSemantics._default / synthesize over a random declared forest of six names '
+                '(random ask sequences per thread, own or shared semantics); the base type has an __init_subclass__ hook that '
+                'keeps the creating thread inside class creation until the others rest in synthesize() or are done. '
+                'K1: per selected grammar (ten-rule and small ones) one history over generations 1..3 of its generated '
+                'model module (flavours: a new module object under the same name / the rewritten file reloaded): one or '
+                'two compile-time ways (typedefs=[module], typedefs=[mapping], constructors=, builderconfig=, semantics=) '
+                'given generation 1, later generation 2 (sometimes back to 1, or on to 3), parse-time semantics, the '
+                'module\'s own semantics class, tatsu.parse(typedefs=), and asmodel / plain / tatsu.parse without a '
+                'container in between, all under one parser name and grammar text. '
                 'Non-trivial: more than one node / input longer than 3 chars / history longer than 1; distinct by content hash.')
     chk.trusted += ['the canonicaliser Canon (Python object graph -> ObjModel.value, same case order as Node._cached_children)',
                     'oracle tables: iteration order of the Python set `pub.keys() - vars(BaseNode).keys()` per node '
@@ -1890,13 +2552,22 @@ def main():
                     'name, dir(walker class) callables named walk_*/_walk_*, __bases__ of the node classes',
                     'H1 oracle (own Python code, implementation-only: the model generator is not modelled in Coq): the chains '
                     'read back from the grammar text, declared base = successor of a name in any chain, ancestors by '
-                    'following it; generated classes found by name in the exec\'d module, compared through __mro__/__bases__']
+                    'following it; generated classes found by name in the exec\'d module, compared through __mro__/__bases__',
+                    'C1 scheduler (own Python code): V7Hooked.__init_subclass__ + Gate - holds a thread that is creating a '
+                    'class until sys._current_frames() shows every other working thread at rest inside a function named '
+                    'synthesize (same instruction on two polls 1 ms apart) or finished, at most 1 s; it decides the '
+                    'interleaving only, the verdict comes from the classes of the nodes, the answers of synthesize(name, ()) '
+                    'and the count of classes the hook saw',
+                    'K1 oracle (own Python code): the classes of a generation are vars(module) entries whose __module__ is the '
+                    'module name; the module file lives under /var/tmp/verif-c07-<pid> for the reload flavour']
     chk.assumptions += ['setord is a permutation of its input minus vars(BaseNode) names (Python set semantics)',
                         'vars(node) keys are distinct (dict) and node identities in a tree are distinct (tree-shaped) for the exactly-once statements',
                         'parent pointers are those present after children() has run on the parent (the code assigns them lazily there)',
                         'forest grammars declare one base per class name (consistent chains); their synthesized classes are '
                         'declared once with the whole chain before the first parse (first synthesis wins: D14a, tested by R1), and a '
                         'generated class may carry the None-valued fields it inherits from the class of another rule',
+                        'C1: a race is two or three threads started together on one never-seen set of class names; only '
+                        'interleavings in which the later threads arrive during the first thread\'s class creation are driven',
                         'walker classes get no new walk_ methods after their class statement (no monkeypatching): [has w] is fixed; '
                         'C07_dispatch_cache_transparent assumes that same-named node classes resolve alike (cache keyed by __qualname__)']
     st = chk.coq()
@@ -1907,9 +2578,11 @@ def main():
         constants(chk, mr)
         run_tree_tie(chk, mr)
         run_registry(chk, mr)
-        run_grammars(chk, mr)
-    for name in [m for m in sys.modules if m.startswith('verif_c07_model_')]:
-        del sys.modules[name]
+        try:
+            run_grammars(chk, mr)
+            run_concurrent(chk)
+        finally:
+            drop_scratch()
     chk.exhaustive = False
     return chk.finish()
 
